@@ -109,7 +109,7 @@ def scheme_checks(eng, Q, basename, fail, concrete=None):
         count[0] += 1
         ok, _ = eng.prove_identity(val, want, what)
         if ok != must_hold:
-            fail('exact' if must_hold else 'tight', what + (' is not integrated exactly' if must_hold else
+            fail('exact' if must_hold else 'tight', what + ((' is not integrated exactly' if ': x^' in what else ' does not hold') if must_hold else
                                                              ' is integrated exactly although beyond the advertised degree '
                                                              '(vacuity twin failed)'))
 
@@ -171,11 +171,27 @@ def scheme_checks(eng, Q, basename, fail, concrete=None):
     mx2 = Q.QuadScheme2D(t2.mirror_x().points, t2.mirror_x().weights).mirror_x()
     for p, q in zip(np.asarray(mx2.points).flat, np.asarray(t2.points).flat):
         check(p, q, 'mirror_x twice gives back the 2-D nodes')
+    # each mirror of one and the same scheme object reflects exactly its own coordinate (whatever was asked first)
+    def check_mirrors(sch, label, dim):
+        names = ['mirror_x', 'mirror_y', 'mirror_z'][:dim]
+        for order in (names, names[::-1]):
+            for nm in order:
+                getattr(sch, nm)()
+        for k, nm in enumerate(names):
+            m_ = getattr(sch, nm)()
+            for ax in range(dim):
+                for p_, q_ in zip(np.asarray(m_.points[ax]).flat, np.asarray(sch.points[ax]).flat):
+                    check(p_, (1 - q_) if ax == k else q_, '%s.%s: coordinate %d of the nodes' % (label, nm, ax))
+            for p_, q_ in zip(np.asarray(m_.weights).flat, np.asarray(sch.weights).flat):
+                check(p_, q_, '%s.%s: weights' % (label, nm))
+    check_mirrors(Q.ProductScheme2D(base, base), 'ProductScheme2D (fresh object, both mirrors requested)', 2)
+    check_mirrors(t2, 'ProductScheme2D', 2)
     # 2-D Duffy
     if N >= 1:
         d_ns = Q.DuffyScheme2D(t2, symmetric=False)
         d_s = Q.DuffyScheme2D(t2, symmetric=True)
         check_2d(d_ns, 'DuffyScheme2D(non-symmetric)', N - 1)
+        check_mirrors(d_ns, 'DuffyScheme2D(non-symmetric)', 2)
         check_2d(d_ns.mirror_x(), 'DuffyScheme2D(non-symmetric).mirror_x', N - 1)
         check_2d(d_ns.mirror_y(), 'DuffyScheme2D(non-symmetric).mirror_y', N - 1)
         check_2d(d_s, 'DuffyScheme2D(symmetric), symmetric integrands', N - 1, symmetric_only=True)
@@ -189,6 +205,8 @@ def scheme_checks(eng, Q, basename, fail, concrete=None):
         id_s = Q.DuffySchemeIdentical3D(t3, symmetric_xy=True)
         touch = Q.DuffySchemeTouch3D(t3)
         check_3d(id_ns, 'DuffySchemeIdentical3D(non-symmetric)', N - 2)
+        check_mirrors(id_ns, 'DuffySchemeIdentical3D(non-symmetric)', 3)
+        check_mirrors(touch, 'DuffySchemeTouch3D', 3)
         check_3d(touch, 'DuffySchemeTouch3D', N - 2)
         for nm in ('mirror_x', 'mirror_y', 'mirror_z'):
             check_3d(getattr(id_ns, nm)(), 'DuffySchemeIdentical3D.%s' % nm, N - 2)
